@@ -103,10 +103,21 @@ def braced(r, opts):
     if opts.big and r.random() < opts.big:
         # a long value (beyond 256 / 4096 characters), e.g. an abstract
         return "{" + " ".join(r.choice(["lorem", "ipsum", "{Dolor}", "sit,", "amet = x", "é"]) for _ in range(r.choice([60, 300, 1200]))) + "}"
+    if r.random() < 0.05:
+        return "{" + _numberlike(r) + "}"
     return "{" + _no_trailing_backslash(_defuse(body(r, opts, 1))) + "}"
 
 
+def _numberlike(r):
+    """Digits with white space around them, ranges, signs: what a 'potentially numeric' field holds besides a plain number
+    (seed C05-l: blanks around a number inside the enclosing are content)."""
+    core = r.choice(["2020", "12", "0", "007", "1--2", "3", "-1", "1e5", "٣", "²", "12 34", "1,2"])
+    return r.choice([" ", "", "  ", "\t", "\n", " \n "]) + core + r.choice([" ", "", "  ", "\t", "\n", "\n  "])
+
+
 def quoted(r, opts):
+    if r.random() < 0.05:
+        return '"' + _numberlike(r) + '"'
     return '"' + _no_trailing_backslash(_defuse(body(r, opts, 0, in_quote=True))) + '"'
 
 
